@@ -204,6 +204,14 @@ func ruleF2I(c *Ctx) {
 					c.ok(key, cv.Pos(), "dominated by lower, upper and NaN guards on %s (saturating conversion)", k)
 					return
 				}
+				if onlyTested(cv) {
+					c.ok(key+":only-tested", cv.Pos(), "the converted value is only compared with bounds and quoted in the resulting error message; no index, length or stored value derives from it")
+					return
+				}
+				if postRangeChecked(cv) {
+					c.ok(key+":post-check", cv.Pos(), "the converted value is compared with a lower and an upper bound, both leaving the function, before anything else uses it: whatever integer an out-of-range %s converts to, it is rejected or lies within the accepted range", k)
+					return
+				}
 				why, ok := f2iTable[fnKey(fn)+"->"+sink]
 				if !ok {
 					why, ok = f2iTable[fnKey(fn)]
@@ -224,6 +232,194 @@ func ruleF2I(c *Ctx) {
 	}
 	sort.Strings(ks)
 	c.stat("tabled-sites", len(ks))
+}
+
+// onlyTested: every use of the converted value is a comparison, or its appearance as an argument of an
+// error-constructing call (newError / fmt.Errorf / Sprintf) - nothing is computed from it.
+func onlyTested(cv *ssa.Convert) bool {
+	refs := cv.Referrers()
+	if refs == nil || len(*refs) == 0 {
+		return false
+	}
+	tests := 0
+	for _, r := range *refs {
+		switch x := r.(type) {
+		case *ssa.DebugRef:
+		case *ssa.BinOp:
+			switch x.Op {
+			case token.LSS, token.LEQ, token.GTR, token.GEQ, token.EQL, token.NEQ:
+				tests++
+			default:
+				return false
+			}
+		case *ssa.MakeInterface:
+			// boxed for a variadic formatting call: stored into the argument array of newError/Errorf/Sprintf
+			ok := true
+			if mrefs := x.Referrers(); mrefs != nil {
+				for _, mr := range *mrefs {
+					st, isSt := mr.(*ssa.Store)
+					if !isSt {
+						ok = false
+						continue
+					}
+					ia, isIA := st.Addr.(*ssa.IndexAddr)
+					if !isIA {
+						ok = false
+						continue
+					}
+					// the array is sliced and passed to a formatting function
+					fmtCall := false
+					if al, isAl := ia.X.(*ssa.Alloc); isAl {
+						if arefs := al.Referrers(); arefs != nil {
+							for _, ar := range *arefs {
+								if sl, isSl := ar.(*ssa.Slice); isSl {
+									if srefs := sl.Referrers(); srefs != nil {
+										for _, sr := range *srefs {
+											if call, isCall := sr.(*ssa.Call); isCall {
+												if f := call.Call.StaticCallee(); f != nil && (f.Name() == "newError" || f.Name() == "Errorf" || f.Name() == "Sprintf" || f.Name() == "PosErrorf") {
+													fmtCall = true
+												}
+											}
+										}
+									}
+								}
+							}
+						}
+					}
+					if !fmtCall {
+						ok = false
+					}
+				}
+			}
+			if !ok {
+				return false
+			}
+		default:
+			return false
+		}
+	}
+	return tests > 0
+}
+
+// postRangeChecked: the idiom  n := int(f); if n < lo { return err }; if n > hi { return err }; ...use n...
+// Both tests compare the converted value itself, each leaves the function on its failing side, and every
+// other use of the value is dominated by the passing sides of both tests.
+func postRangeChecked(cv *ssa.Convert) bool {
+	refs := cv.Referrers()
+	if refs == nil {
+		return false
+	}
+	type test struct {
+		blk  *ssa.BasicBlock
+		pass int // successor index taken when the test passes (value within bound)
+	}
+	var lows, highs []test
+	leaves := func(b *ssa.BasicBlock) bool {
+		// every path from b ends in a return without passing back through a use of cv
+		n := 0
+		for blk := range reachableFrom(b) {
+			if len(blk.Instrs) > 0 {
+				if _, ok := blk.Instrs[len(blk.Instrs)-1].(*ssa.Return); ok {
+					n++
+				}
+			}
+		}
+		if len(b.Instrs) > 0 {
+			if _, ok := b.Instrs[len(b.Instrs)-1].(*ssa.Return); ok {
+				n++
+			}
+		}
+		return n > 0 && len(reachableFrom(b)) <= 3
+	}
+	for _, r := range *refs {
+		bo, ok := r.(*ssa.BinOp)
+		if !ok {
+			continue
+		}
+		brefs := bo.Referrers()
+		if brefs == nil {
+			continue
+		}
+		for _, br := range *brefs {
+			iff, ok := br.(*ssa.If)
+			if !ok {
+				continue
+			}
+			b := iff.Block()
+			// normalise to  cv OP other
+			op := bo.Op
+			if bo.Y == ssa.Value(cv) {
+				switch op {
+				case token.LSS:
+					op = token.GTR
+				case token.LEQ:
+					op = token.GEQ
+				case token.GTR:
+					op = token.LSS
+				case token.GEQ:
+					op = token.LEQ
+				}
+			} else if bo.X != ssa.Value(cv) {
+				continue
+			}
+			switch op {
+			case token.LSS, token.LEQ: // cv < lo : failing side is the true edge
+				if leaves(b.Succs[0]) {
+					lows = append(lows, test{b, 1})
+				}
+			case token.GTR, token.GEQ: // cv > hi
+				if leaves(b.Succs[0]) {
+					highs = append(highs, test{b, 1})
+				}
+			}
+		}
+	}
+	if len(lows) == 0 || len(highs) == 0 {
+		return false
+	}
+	// every other use is dominated by a passing low and a passing high test
+	for _, r := range *refs {
+		if _, ok := r.(*ssa.DebugRef); ok {
+			continue
+		}
+		if bo, ok := r.(*ssa.BinOp); ok {
+			isTest := false
+			for _, t := range append(append([]test{}, lows...), highs...) {
+				if bo.Block() == t.blk {
+					isTest = true
+				}
+			}
+			if isTest {
+				continue
+			}
+		}
+		// values only formatted into the error message on the failing side are fine
+		inFail := false
+		for _, t := range append(append([]test{}, lows...), highs...) {
+			fail := t.blk.Succs[1-t.pass]
+			if r.Block() == fail || reachableFrom(fail)[r.Block()] && !reachableFrom(t.blk.Succs[t.pass])[r.Block()] {
+				inFail = true
+			}
+		}
+		if inFail {
+			continue
+		}
+		okLow, okHigh := false, false
+		for _, t := range lows {
+			if edgeDominates(t.blk, t.pass, r.Block()) || t.blk.Succs[t.pass] == r.Block() {
+				okLow = true
+			}
+		}
+		for _, t := range highs {
+			if edgeDominates(t.blk, t.pass, r.Block()) || t.blk.Succs[t.pass] == r.Block() {
+				okHigh = true
+			}
+		}
+		if !okLow || !okHigh {
+			return false
+		}
+	}
+	return true
 }
 
 // f2iSink: what consumes the converted value (for a stable, line-free key).
